@@ -310,6 +310,89 @@ def keep_order(lists, n):
     return _norm_lists(lists, n)
 
 
+def turn_ok(M, n):
+    M = np.asarray(M)
+    if M.shape[0] != n and M.shape[1] == n:
+        M = M.T
+    return M
+
+
+def turn_bad(M, n):
+    M = np.asarray(M)
+    if M.shape[1] == n:
+        M = M.T
+    return M
+
+
+def twice_bad(a, b, same):
+    X = np.array(a, dtype=float)
+    n = np.linalg.norm(X, axis=0)
+    Y, m = (X, n) if same else (np.array(b, dtype=float), np.linalg.norm(b, axis=0))
+    X /= n
+    Y /= m
+    return X.T @ Y
+
+
+def twice_ok(a, b, same):
+    X = np.array(a, dtype=float)
+    n = np.linalg.norm(X, axis=0)
+    Y, m = (X, n) if same else (np.array(b, dtype=float), np.linalg.norm(b, axis=0))
+    X = X / n
+    Y = Y / m
+    return X.T @ Y
+
+
+class KeepBad:
+    def __init__(self, data, fs):
+        self.data, self.fs, self._kept = data, fs, {}
+
+    def design(self, wn):
+        if wn not in self._kept:
+            self._kept[wn] = wn / self.fs
+        return self._kept[wn]
+
+    def use(self, wn):
+        return self.design(wn)
+
+    def halve(self):
+        self.fs = self.fs / 2
+
+
+class KeepOk:
+    def __init__(self, data, fs):
+        self.data, self.fs, self._kept = data, fs, {}
+
+    def design(self, wn):
+        if wn not in self._kept:
+            self._kept[wn] = wn / self.fs
+        return self._kept[wn]
+
+    def use(self, wn):
+        return self.design(wn)
+
+    def halve(self):
+        self.fs = self.fs / 2
+        self._kept = {}
+
+
+def sp_a(X, n):
+    out = []
+    for i in range(0, n):
+        if 0 < i:
+            out.append(np.transpose(X)[i])
+    res = out
+    return res
+
+def sp_b(X, n):
+    """same thing"""
+    return sp_a(X, n)
+
+def sp_keep(X, n):
+    out = []
+    for i in range(n):
+        out.append(X[i])
+    return out, i
+
 def lose_order(lists, n):
     return _norm_lists_bad(lists, n)
 '''
@@ -411,7 +494,7 @@ def run(root):
         def verdicts(fn, quals):
             r_ = Run("C00", "quick", 0)
             r_.rule("R", "x", 0)
-            fn(prog.raw if fn is astq.repeated_option_rule else prog, r_, "R", ["pyoma2.functions.gen." + q_ for q_ in quals])
+            fn(prog.raw if fn in (astq.repeated_option_rule, effects.alias_inplace_rule, astq.orientation_guess_rule) else prog, r_, "R", ["pyoma2.functions.gen." + q_ for q_ in quals])
             return [o.status for o in r_.obs]
         for rule_fn, good, bad in ((astq.shortcut_rule, "pick_ok", "pick_bad"), (astq.inherited_dtype_rule, "typed_ok", "typed_bad"),
                                    (astq.repeated_option_rule, "opt_ok", "opt_bad"), (effects.shared_state_rule, "memo_ok", "memo_bad")):
@@ -421,6 +504,20 @@ def run(root):
                 fails.append(f"{rule_fn.__name__}: sound example {good} -> {vg}")
             if "violated" not in vb:
                 fails.append(f"{rule_fn.__name__}: broken example {bad} -> {vb}")
+        for rule_fn, good, bad in ((astq.orientation_guess_rule, "turn_ok", "turn_bad"), (effects.alias_inplace_rule, "twice_ok", "twice_bad")):
+            n += 1
+            vg, vb = verdicts(rule_fn, [good]), verdicts(rule_fn, [bad])
+            if "violated" in vg or "undecided" in vg:
+                fails.append(f"{rule_fn.__name__}: sound example {good} -> {vg}")
+            if "violated" not in vb:
+                fails.append(f"{rule_fn.__name__}: broken example {bad} -> {vb}")
+        n += 1
+        r_ = Run("C00", "quick", 0)
+        r_.rule("R", "x", 0)
+        effects.memo_rule(prog.raw, r_, "R", ["pyoma2.functions.gen"])
+        kept = {o.fn.split(".")[-2]: o.status for o in r_.obs if ".Keep" in o.fn}
+        if kept != {"KeepBad": "violated", "KeepOk": "holds"}:
+            fails.append(f"memo_rule: {kept}")
         n += 1
         roles = {}
         for name in ("eig_ok", "eig_bad"):
@@ -452,6 +549,16 @@ def run(root):
         from .poly import atom_of
         if atom_of(w2, -1) is None or not (atom_of(w2, -1) == L):
             fails.append(f"poly: substitution under an inverse: {w2!r}")
+        # spelling pass of the normaliser: one form per operation; a loop variable that is read after its loop keeps the loop
+        n += 1
+        want_sp = "out = [X.T[i] for i in range(0, n) if i > 0]\nreturn out"
+        for name in ("sp_a", "sp_b"):
+            body = [b for b in prog.func("functions.gen." + name).node.body if not (isinstance(b, ast.Expr) and isinstance(b.value, ast.Constant))]
+            got = "\n".join(ast.unparse(b) for b in body)
+            if got != want_sp:
+                fails.append(f"desugar spelling: {name} -> {got!r}")
+        if not any(isinstance(b, ast.For) for b in prog.func("functions.gen.sp_keep").node.body):
+            fails.append("desugar spelling: a loop whose variable is read afterwards was turned into a comprehension")
     finally:
         astq.PROG = old
     return n, fails
